@@ -116,7 +116,7 @@ func initMacroDefinitionNode() {
 		c,
 		"body",
 		func(_ *vm.Thread, args []value.Value) (value.Value, value.Value) {
-			self := args[0].MustReference().(*ast.MethodDefinitionNode)
+			self := args[0].MustReference().(*ast.MacroDefinitionNode)
 			entries := value.CastNativeArrayTuplePtr(&self.Body)
 			return entries.ToValue(), value.Undefined
 		},
@@ -126,7 +126,7 @@ func initMacroDefinitionNode() {
 		c,
 		"is_sealed",
 		func(_ *vm.Thread, args []value.Value) (value.Value, value.Value) {
-			self := args[0].MustReference().(*ast.MethodDefinitionNode)
+			self := args[0].MustReference().(*ast.MacroDefinitionNode)
 			result := value.BoolVal(self.IsSealed())
 			return result, value.Undefined
 
@@ -137,7 +137,7 @@ func initMacroDefinitionNode() {
 		c,
 		"location",
 		func(_ *vm.Thread, args []value.Value) (value.Value, value.Value) {
-			self := args[0].MustReference().(*ast.MethodDefinitionNode)
+			self := args[0].MustReference().(*ast.MacroDefinitionNode)
 			result := value.Ref((*value.Location)(self.Location()))
 			return result, value.Undefined
 
@@ -148,7 +148,7 @@ func initMacroDefinitionNode() {
 		c,
 		"location",
 		func(_ *vm.Thread, args []value.Value) (value.Value, value.Value) {
-			self := args[0].MustReference().(*ast.MethodDefinitionNode)
+			self := args[0].MustReference().(*ast.MacroDefinitionNode)
 			result := value.Ref((*value.Location)(self.Location()))
 			return result, value.Undefined
 
@@ -159,7 +159,7 @@ func initMacroDefinitionNode() {
 		c,
 		"==",
 		func(_ *vm.Thread, args []value.Value) (value.Value, value.Value) {
-			self := args[0].MustReference().(*ast.MethodDefinitionNode)
+			self := args[0].MustReference().(*ast.MacroDefinitionNode)
 			other := args[1]
 			return value.BoolVal(self.Equal(other)), value.Undefined
 		},
@@ -170,7 +170,7 @@ func initMacroDefinitionNode() {
 		c,
 		"to_string",
 		func(_ *vm.Thread, args []value.Value) (value.Value, value.Value) {
-			self := args[0].MustReference().(*ast.MethodDefinitionNode)
+			self := args[0].MustReference().(*ast.MacroDefinitionNode)
 			return value.Ref(value.String(self.String())), value.Undefined
 		},
 	)
